@@ -8,6 +8,7 @@ import (
 	"fmt"
 	"net/netip"
 	"runtime"
+	"runtime/debug"
 	"sort"
 	"sync"
 	"sync/atomic"
@@ -661,7 +662,7 @@ type c20Job struct {
 	run func(w *c20Worker)
 }
 
-func c20RunJobs(c *mc.Check, seen *c20Bitmap, jobs []c20Job) []*c20Worker {
+func c20RunJobs(c *mc.Check, seen *c20Bitmap, jobs []c20Job) (ws []*c20Worker, capped bool) {
 	nw := runtime.GOMAXPROCS(0)
 	workers := make([]*c20Worker, nw)
 	var next atomic.Int64
@@ -690,8 +691,9 @@ func c20RunJobs(c *mc.Check, seen *c20Bitmap, jobs []c20Job) []*c20Worker {
 	wg.Wait()
 	if n := skipped.Load(); n > 0 {
 		c.Capped(fmt.Sprintf("soft time budget: %d of %d jobs skipped", n, len(jobs)))
+		return workers, true
 	}
-	return workers
+	return workers, false
 }
 
 // ---------------------------------------------------------------------------------------------------------------------
@@ -1181,9 +1183,10 @@ func c20DecodeGopacket(d []byte) (g c20GP) {
 func TestVerifC20(t *testing.T) {
 	c := mc.Begin(t, "C20", "exploration")
 	defer c.End()
+	defer debug.SetGCPercent(debug.SetGCPercent(1000)) // tiny live heap, high allocation rate: collect less often
 	thorough := c.Thorough()
 	seen := newC20Bitmap(mc.Pick[uint](c, 27, 30))
-	var jobs []c20Job
+	var jobs, extraJobs, v6Jobs []c20Job // core box first, the big IPv6 family in a strided order, thorough-only extras last
 
 	// ---- family 1: every short byte string -----------------------------------------------------------------------
 	maxShort := mc.Pick(c, 2, 3)
@@ -1198,7 +1201,7 @@ func TestVerifC20(t *testing.T) {
 	}})
 	if maxShort >= 3 {
 		for a := 0; a < 256; a++ {
-			jobs = append(jobs, c20Job{"short=3", func(w *c20Worker) {
+			extraJobs = append(extraJobs, c20Job{"short=3", func(w *c20Worker) {
 				buf := []byte{byte(a), 0, 0}
 				for b := 0; b < 256; b++ {
 					for x := 0; x < 256; x++ {
@@ -1293,7 +1296,7 @@ func TestVerifC20(t *testing.T) {
 			}
 		}})
 		if thorough { // every value of every adjacent byte pair (16-bit fields) in the first 72 bytes
-			jobs = append(jobs, c20Job{"seed-2adjacent", func(w *c20Worker) {
+			extraJobs = append(extraJobs, c20Job{"seed-2adjacent", func(w *c20Worker) {
 				s := sd.pkt
 				m := make([]byte, len(s))
 				for pos := 0; pos+1 < len(s) && pos < 72; pos++ {
@@ -1401,7 +1404,7 @@ func TestVerifC20(t *testing.T) {
 	const chunk = 48
 	for lo := 0; lo < len(chains); lo += chunk {
 		hi := min(lo+chunk, len(chains))
-		jobs = append(jobs, c20Job{"structured-v6", func(w *c20Worker) {
+		v6Jobs = append(v6Jobs, c20Job{"structured-v6", func(w *c20Worker) {
 			for _, ch := range chains[lo:hi] {
 				for _, lm := range lenModes {
 					if lm != 0 {
@@ -1416,7 +1419,10 @@ func TestVerifC20(t *testing.T) {
 						}
 					}
 					ex := c20ChainExts(ch, lm)
-					for _, up := range uppers {
+					for ui, up := range uppers {
+						if !thorough && len(ch) > fullLen && ui%3 != 0 {
+							continue // quick tier: long chains x {tcp, icmp6-ns, mobility}
+						}
 						p, bounds := c20BuildV6(0x0c20, ex, up.nh, up.body)
 						from := 40
 						if len(ch) == 0 {
@@ -1435,8 +1441,17 @@ func TestVerifC20(t *testing.T) {
 		}})
 	}
 
+	// strided order: should the soft budget cut the run short, every chain length and kind has been touched
+	stride := 97
+	for len(v6Jobs)%stride == 0 {
+		stride += 2
+	}
+	for i := range v6Jobs {
+		jobs = append(jobs, v6Jobs[i*stride%len(v6Jobs)])
+	}
+	jobs = append(jobs, extraJobs...)
 	c.Set("jobs", len(jobs))
-	workers := c20RunJobs(c, seen, jobs)
+	workers, capped := c20RunJobs(c, seen, jobs)
 
 	// ---- merge -------------------------------------------------------------------------------------------------------
 	var n [c20nCounters]int64
@@ -1489,25 +1504,40 @@ func TestVerifC20(t *testing.T) {
 		}
 	}
 
-	// ---- vacuity guards (a run that found violations is a verdict already: a broken parser may empty an outcome class) -------
+	// ---- vacuity guards -----------------------------------------------------------------------------------------------
+	// A run that found violations is a verdict already (a broken parser may empty an outcome class), and a run cut short
+	// by the soft budget finishes normally with exhaustive=false: in both cases unmet guards are recorded, not fatal.
+	guardsOff := ""
 	if len(viol) > 0 {
-		for i := range n {
-			n[i]++
+		guardsOff = "violations found"
+	} else if capped {
+		guardsOff = "soft time budget hit"
+	}
+	var unmet []string
+	guard := func(cond bool, format string, args ...any) {
+		if cond {
+			return
 		}
-		kindsAcc, maxExt = 31, max(maxExt, 8)
+		if guardsOff == "" {
+			c.Require(false, format, args...)
+		}
+		unmet = append(unmet, fmt.Sprintf(format, args...))
 	}
-	c.Require(n[c20nBothAccept4] > 0 && n[c20nBothAccept6] > 0, "no packet accepted by both sides: v4=%d v6=%d", n[c20nBothAccept4], n[c20nBothAccept6])
-	c.Require(n[c20nBothReject] > 0, "no packet rejected by both sides")
-	c.Require(n[c20nFragNonFirst4] > 0 && n[c20nFragFirst4] > 0 && n[c20nFragNonFirst6] > 0 && n[c20nFragFirst6] > 0,
+	guard(n[c20nBothAccept4] > 0 && n[c20nBothAccept6] > 0, "no packet accepted by both sides: v4=%d v6=%d", n[c20nBothAccept4], n[c20nBothAccept6])
+	guard(n[c20nBothReject] > 0, "no packet rejected by both sides")
+	guard(n[c20nFragNonFirst4] > 0 && n[c20nFragFirst4] > 0 && n[c20nFragNonFirst6] > 0 && n[c20nFragFirst6] > 0,
 		"fragment classes not all accepted: v4 non-first=%d first=%d v6 non-first=%d first=%d", n[c20nFragNonFirst4], n[c20nFragFirst4], n[c20nFragNonFirst6], n[c20nFragFirst6])
-	c.Require(kindsAcc == 31, "not every extension header kind was walked in an accepted packet: mask=%05b", kindsAcc)
-	c.Require(maxExt >= 8, "longest accepted extension chain has only %d headers", maxExt)
-	c.Require(n[c20nPorts] > 0 && n[c20nICMPID] > 0, "no accepted packet with distinguishable ports (%d) / non-zero ICMP identifier (%d)", n[c20nPorts], n[c20nICMPID])
+	guard(kindsAcc == 31, "not every extension header kind was walked in an accepted packet: mask=%05b", kindsAcc)
+	guard(maxExt >= 8, "longest accepted extension chain has only %d headers", maxExt)
+	guard(n[c20nPorts] > 0 && n[c20nICMPID] > 0, "no accepted packet with distinguishable ports (%d) / non-zero ICMP identifier (%d)", n[c20nPorts], n[c20nICMPID])
 	for _, k := range []uint16{4<<8 | 6, 4<<8 | 17, 4<<8 | 1, 4<<8 | 47, 6<<8 | 6, 6<<8 | 17, 6<<8 | 58, 6<<8 | 59, 6<<8 | 132, 6<<8 | 135, 6<<8 | 50} {
-		c.Require(protoAcc[k] || len(viol) > 0, "protocol %d over IPv%d never accepted by both sides", k&0xff, k>>8)
+		guard(protoAcc[k], "protocol %d over IPv%d never accepted by both sides", k&0xff, k>>8)
 	}
-	c.Require(n[c20nWalkerOK] > 0 && n[c20nWalkerErr] > 0, "IPv6FindUpperProtocol outcomes: ok=%d err=%d", n[c20nWalkerOK], n[c20nWalkerErr])
-	c.Require(len(outcomes) >= 20 || len(viol) > 0, "only %d distinct outcomes", len(outcomes))
+	guard(n[c20nWalkerOK] > 0 && n[c20nWalkerErr] > 0, "IPv6FindUpperProtocol outcomes: ok=%d err=%d", n[c20nWalkerOK], n[c20nWalkerErr])
+	guard(len(outcomes) >= 20, "only %d distinct outcomes", len(outcomes))
+	if len(unmet) > 0 {
+		c.Set("vacuity_guards_unmet", map[string]any{"because": guardsOff, "guards": unmet})
+	}
 
 	protoList := make([]string, 0, len(protoAcc))
 	for k := range protoAcc {
